@@ -259,10 +259,10 @@ class StrSet(VModel):
     def contains(self, I, item):
         item = lib.unopt(I, item)
         if isinstance(item, VStr):
-            return VBool(self.member(item.t))
+            return self.member(item.t)
         if isinstance(item, JsonV):
             # keys of a dict are hashable; a non-str key is not a member of a set of str
-            return VBool(z3.And(item.is_(STR), self.member(jstr(item.t))))
+            return z3.And(item.is_(STR), self.member(jstr(item.t)))
         raise Unsupported('%r in set of str' % (item,))
 
 
